@@ -1604,6 +1604,20 @@ impl<A: Kind, B: Kind, C: Kind> Hist<A, B, C>
         } else {
             (0, vec![])
         };
+        // Tail probe (the world is discarded afterwards): the last operation once more, checked like
+        // the first time. State merging by canonical key never applies an operation twice in a row
+        // when the first application leads back to a known state, so state that a defect hides
+        // outside the key (a memo of the last index / handle / event) would otherwise go unseen.
+        if r.viol.is_none() && self.prop != Prop::C20 {
+            if let Some(last) = ops.last() {
+                if next.contains(last) && r.apply(last) {
+                    r.check();
+                    if let Some(v) = r.viol.take() {
+                        r.viol = Some(format!("{} [when the last operation is applied a second time]", v));
+                    }
+                }
+            }
+        }
         if r.viol.is_none() {
             r.tail();
         }
